@@ -269,3 +269,22 @@ def match_known(prop, failure, known):
         if re.search(k["key_regex"], failure.key):
             return k
     return None
+
+
+# --------------------------------------------------------------------------- scratch directories
+import contextlib
+import shutil
+import tempfile
+
+
+@contextlib.contextmanager
+def scratch_cwd(prefix="xoverif-"):
+    """run a block (cffi builds write into the cwd) inside a fresh directory outside /repo and /verif; removed afterwards"""
+    old = os.getcwd()
+    d = tempfile.mkdtemp(prefix=prefix)
+    os.chdir(d)
+    try:
+        yield d
+    finally:
+        os.chdir(old)
+        shutil.rmtree(d, ignore_errors=True)
